@@ -246,6 +246,7 @@ type WideParams struct {
 	SecondDV   bool
 	FreqMod    int
 	RepeatA    int // >0: docs with i%RepeatA==0 carry a second instance of field "a" listing the dense term again
+	GapField   int // >0: doc-value field "b" occurs only in document 3 and in documents >= GapField: whole 1024-document doc-value chunks without any value
 	DenseExact int // >0: the dense term occurs in exactly the first DenseExact documents that have field "a" (an exact multiple of 1024: the boundary of the adaptive chunk-count formula)
 }
 
@@ -261,6 +262,12 @@ func GenWide(t *rapid.T) WideParams {
 	p.SecondDV = rapid.Bool().Draw(t, "secondDV")
 	p.FreqMod = rapid.IntRange(1, 4).Draw(t, "freqMod")
 	p.RepeatA = rapid.SampledFrom([]int{0, 0, 1, 2, 3}).Draw(t, "repeatA")
+	if p.N > 1030 && rapid.Bool().Draw(t, "gapField") {
+		p.GapField = rapid.SampledFrom([]int{1024, 1030, 2048, 2050, p.N - 2}).Draw(t, "gapStart")
+		if p.GapField >= p.N {
+			p.GapField = p.N - 2
+		}
+	}
 	if p.N >= 1024 && rapid.IntRange(0, 3).Draw(t, "denseExact") == 0 {
 		p.DenseExact = 1024 * rapid.IntRange(1, p.N/1024).Draw(t, "denseExactK")
 	}
@@ -276,6 +283,9 @@ func (p WideParams) Batch(sc *Scenario) Batch {
 	dvA := sc.Schema["a"] != dvNever
 	denseSoFar := 0
 	for i := range b {
+		if p.GapField > 0 && (i == 3 || (i >= p.GapField && i%2 == 0)) {
+			b[i].Fields = append(b[i].Fields, Field{Name: "b", DV: sc.Schema["b"] != dvNever, Len: 1, Terms: []Term{{T: fmt.Sprintf("g%d", i%7), Freq: 1}}})
+		}
 		if p.NoFieldPer > 0 && i%p.NoFieldPer == 1 {
 			if p.SecondDV {
 				b[i].Fields = append(b[i].Fields, Field{Name: "zz", DV: sc.Schema["zz"] != dvNever,
@@ -376,4 +386,50 @@ func sortedKeys(m map[string][]XPosting) []string {
 	}
 	sort.Strings(ks)
 	return ks
+}
+
+// genPostingBatch draws a batch focused on one posting list: term "t" of
+// field "a" occurs in most documents, with drawn frequencies and locations.
+func genPostingBatch(t *rapid.T, sc *Scenario) Batch {
+	n := rapid.IntRange(1, 28).Draw(t, "nDocs")
+	b := make(Batch, n)
+	withB := rapid.Bool().Draw(t, "withB")
+	for i := range b {
+		kind := rapid.IntRange(0, 9).Draw(t, "docKind")
+		if kind == 0 {
+			continue // empty document
+		}
+		f := Field{Name: "a", DV: sc.Schema["a"] == dvAlways}
+		if kind >= 2 {
+			tm := Term{T: "t"}
+			nl := rapid.SampledFrom([]int{0, 0, 1, 2}).Draw(t, "nLocs")
+			for l := 0; l < nl; l++ {
+				lf := ""
+				if withB && rapid.Bool().Draw(t, "locB") {
+					lf = "b"
+				}
+				tm.Locs = append(tm.Locs, Loc{Field: lf, Pos: rapid.SampledFrom(posVals).Draw(t, "pos"), Start: i, End: i + l})
+			}
+			tm.Freq = nl + rapid.SampledFrom([]int{0, 1, 1, 3}).Draw(t, "xf")
+			if tm.Freq == 0 {
+				tm.Freq = 1
+			}
+			f.Terms = append(f.Terms, tm)
+			f.Len += tm.Freq
+		}
+		if kind%2 == 1 {
+			f.Terms = append(f.Terms, Term{T: fmt.Sprintf("u%d", i%3), Freq: 1})
+			f.Len++
+		}
+		if kind == 1 || kind == 5 { // a term unique to this document: 1-hit encoded by a merge
+			f.Terms = append(f.Terms, Term{T: fmt.Sprintf("only%02d", i), Freq: 1})
+			f.Len++
+		}
+		b[i].Fields = append(b[i].Fields, f)
+		if withB && kind%3 == 0 {
+			b[i].Fields = append(b[i].Fields, Field{Name: "b", Len: 1, Terms: []Term{{T: "t", Freq: 1}}})
+		}
+	}
+	fixLocFields(b)
+	return b
 }
